@@ -1,4 +1,4 @@
-import WacProofs.Lemmas.Names
+import WacProofs.Lemmas.NameMap
 /-
   C15 — semver-compatible name matching is the semver track relation; highest wins.
 
@@ -115,5 +115,98 @@ theorem compat_distinct_needs_track (a b : Str) (hne : a ≠ b) (h : compat a b 
   rcases h with h | h
   · exact absurd h hne
   · exact h
+
+/-! ### The semver-aware name map -/
+
+variable {β : Type}
+
+/-- inserting pairwise distinct names never fails -/
+theorem insertAll_succeeds (es : List (Str × β)) (hnd : (es.map (·.1)).Nodup) :
+    ∃ m, ({} : NameMap β).insertAll es = some m :=
+  insertAll_ok es {} hnd (by intro n _; rfl)
+
+/-- C15, second sentence (for every insertion sequence of pairwise distinct names and every
+query): an exact match is returned when one exists; otherwise an entry of the requested track
+that no entry of that track exceeds in version; nothing when the query has no track or the
+track has no entry. -/
+theorem get_isGet (es : List (Str × β)) (m : NameMap β) (q : Str)
+    (hnd : (es.map (·.1)).Nodup) (h : ({} : NameMap β).insertAll es = some m) :
+    IsGet es q (m.get q) :=
+  get_isGet_aux es m q hnd h
+
+/-- exact match first -/
+theorem get_exact_first (es : List (Str × β)) (m : NameMap β) (n : Str) (x : β)
+    (hnd : (es.map (·.1)).Nodup) (h : ({} : NameMap β).insertAll es = some m) (hx : (n, x) ∈ es) :
+    m.get n = some x := by
+  have := get_isGet es m n hnd h
+  unfold IsGet at this
+  rw [show Spec.lookup es n = some x from mem_lookup hnd hx] at this
+  exact this
+
+/-- never an entry from another name or track -/
+theorem get_never_other_track (es : List (Str × β)) (m : NameMap β) (q : Str) (x : β)
+    (hnd : (es.map (·.1)).Nodup) (h : ({} : NameMap β).insertAll es = some m)
+    (hget : m.get q = some x) :
+    ∃ n, (n, x) ∈ es ∧ (n = q ∨ ∃ t, trackOf n = some t ∧ trackOf q = some t) := by
+  have := get_isGet es m q hnd h
+  unfold IsGet at this
+  rw [hget] at this
+  cases hl : Spec.lookup es q with
+  | some y =>
+    rw [hl] at this; cases this
+    exact ⟨q, lookup_some_mem hl, .inl rfl⟩
+  | none =>
+    rw [hl] at this
+    simp only at this
+    cases ht : trackOf q with
+    | none => rw [ht] at this; cases this
+    | some t =>
+      rw [ht] at this
+      rcases this with ⟨h1, _⟩ | ⟨n, y, v, h1, h2, h3, _, _⟩
+      · cases h1
+      · cases h1; exact ⟨n, h2, .inr ⟨t, h3, rfl⟩⟩
+
+/-- highest version on the track: no entry on the query's track is strictly higher than the one
+returned by a fallback lookup -/
+theorem get_highest_on_track (es : List (Str × β)) (m : NameMap β) (q : Str) (t : Track)
+    (hnd : (es.map (·.1)).Nodup) (h : ({} : NameMap β).insertAll es = some m)
+    (hq : q ∉ es.map (·.1)) (ht : trackOf q = some t) (hsome : ∃ e ∈ es, trackOf e.1 = some t) :
+    ∃ n x v, m.get q = some x ∧ (n, x) ∈ es ∧ trackOf n = some t ∧ versionOf n = some v ∧
+      ∀ e ∈ es, trackOf e.1 = some t → ∀ v', versionOf e.1 = some v' → ¬ (v.lt v' = true) := by
+  have := get_isGet es m q hnd h
+  unfold IsGet at this
+  rw [(lookup_none_iff es q).mpr hq, ht] at this
+  simp only at this
+  rcases this with ⟨_, h2⟩ | h
+  · obtain ⟨e, he, hte⟩ := hsome; exact absurd hte (h2 e he)
+  · exact h
+
+/-- regardless of insertion order: with pairwise distinct names and no two entries of a track at
+the same position of the version order, any two insertion orders answer every query alike -/
+theorem get_order_independent (es es' : List (Str × β)) (m m' : NameMap β) (q : Str)
+    (hnd : (es.map (·.1)).Nodup) (htf : TieFree es) (hp : es.Perm es')
+    (h : ({} : NameMap β).insertAll es = some m) (h' : ({} : NameMap β).insertAll es' = some m') :
+    m.get q = m'.get q := by
+  have hnd' : (es'.map (·.1)).Nodup := (hp.map _).nodup_iff.mp hnd
+  have a := get_isGet es m q hnd h
+  have b := isGet_perm hp.symm hnd' q _ (get_isGet es' m' q hnd' h')
+  exact isGet_unique hnd htf q _ _ a b
+
+/-- the model equals the executable specification the driver evaluates on the
+implementation's answers -/
+theorem get_eq_getSpec (es : List (Str × β)) (m : NameMap β) (q : Str)
+    (hnd : (es.map (·.1)).Nodup) (htf : TieFree es)
+    (h : ({} : NameMap β).insertAll es = some m) : m.get q = getSpec es q :=
+  isGet_unique hnd htf q _ _ (get_isGet es m q hnd h) (getSpec_isGet es q)
+
+-- non-vacuity: three versions of one track inserted in two orders, a fourth on another track;
+-- the hypotheses hold and the fallback answers with the highest (index 1 = 1.4.0)
+def exEntries : List (Str × Nat) :=
+  [("a:b/c@1.0.0".toList, 0), ("a:b/c@1.4.0".toList, 1), ("a:b/c@1.2.9".toList, 2), ("a:b/c@2.0.0".toList, 3)]
+example : (exEntries.map (·.1)).Nodup := by decide
+example : (({} : NameMap Nat).insertAll exEntries).map (·.get "a:b/c@1.1.0".toList) = some (some 1) := by decide
+example : (({} : NameMap Nat).insertAll exEntries.reverse).map (·.get "a:b/c@1.1.0".toList) = some (some 1) := by decide
+example : (({} : NameMap Nat).insertAll exEntries).map (·.get "a:b/c@3.0.0".toList) = some none := by decide
+example : getSpec exEntries "a:b/c@1.1.0".toList = some 1 := by decide
 
 end Wac.Props.C15
